@@ -415,6 +415,9 @@ def check_C12(ctx, rep):
     for f in fs:
         feedback.check_k8(ctx, rep, f, roles)
         feedback.check_k9(ctx, rep, f, roles)
+    if feedback.check_k10(ctx, rep, ctx.prog.func('notebook_dfa.check_dfa_minimal'), roles) < 1:
+        raise AnalysisError('check_dfa_minimal no longer minimises its reference')
+    rep.clauses_decided.append('the minimality checker gives feedback exactly when the number of states differs from that of the minimised reference (K10, three orderings)')
     # the checkers judge what the parsers built from the submitted text
     build.check_builder_fields(ctx, rep)
     feedback.check_compare_languages(ctx, rep, ctx.prog.func('language_generator.compare_languages'))
@@ -471,6 +474,10 @@ def check_C13(ctx, rep):
     # the checkers compare the alphabet of the answer with the alphabet of the reference object
     models.check_alphabet_preserved(ctx, rep, F(ctx, 'nfa_algorithms.nfa_to_dfa', 'dfa_algorithms.dfa_complement', 'dfa_algorithms.dfa_reverse', 'dfa_algorithms.dfa_product',
                                                 'dfa_algorithms.dfa_quotient', 'dfa_algorithms.dfa_hopfcroft', 'dfa_algorithms.dfa_from_table'))
+    # the `generate` command prints the words of the reference object, the *_language_from_words checkers read them back
+    if iorules.check_word_list_tokens(ctx, rep, ctx.prog.func('language_algorithms.parse_word_list')) < 1:
+        raise AnalysisError('tokeniser of parse_word_list vanished')
+    rep.clauses_decided.append('the word list printed for a reference object with no word up to the bound (the empty text) is read back as the empty language (R-IO.tokens)')
     rep.extra['templates'] = len(ctx.prog.templates)
     rep.extra['template_tags'] = sum(len(t.tags) for t in ctx.prog.templates.values())
 
@@ -485,7 +492,7 @@ def check_C16(ctx, rep):
     iorules.check_label_layout(ctx, rep, 'pda')
     iorules.check_label_layout(ctx, rep, 'tm')
     iorules.check_regexp_io(ctx, rep)
-    visitor.check_visitors(ctx, rep)
+    visitor.check_visitors(ctx, rep, exact=True)      # "the same printed form": no rewriting while parsing
     iorules.check_paren_independence(ctx, rep)
     iorules.check_cfg_io(ctx, rep)
     if iorules.check_generated(ctx, rep) < 3:
@@ -627,7 +634,8 @@ def check_C19(ctx, rep):
                             'configuration read at call time, flag-guarded code only prints, no cross-call memo feeds a result (R-STATE)',
                             'acceptance tests and enumerators are PROVEN-INDEPENDENT of set iteration order, or the harmful cut-off pattern is reported; choice points of minimisers / eliminations / searches are enumerated (R-ORDER)',
                             'no one-shot iterator is consumed in a loop it was created outside of (R-WORK W6)',
-                            'flag- and size-controlled fixpoint loops of the library stop only after a round without change (R-WORK W5): an early stop makes the result depend on the iteration order']
+                            'flag- and size-controlled fixpoint loops of the library stop only after a round without change (R-WORK W5): an early stop makes the result depend on the iteration order',
+                            'the pair table of dfa_minimize is written and read under one enumeration of the state set (R-INDEX)']
     rep.not_decided += ['equality of languages across iteration orders where the representation legitimately depends on the order']
     fs = effect.pure_functions(ctx)
     effect.check_no_operand_mutation(ctx, rep, fs)
@@ -650,6 +658,8 @@ def check_C19(ctx, rep):
             work.check_size_fixpoint(ctx, rep, f0)
     order.check_independence(ctx, rep, F(ctx, *(ACCEPTANCE + ENUMERATORS + ['regexp_algorithms.regexp_words_up_to_n', 'language_generator.compare_languages', 'language_generator.generate_language'])))
     order.check_independence(ctx, rep, F(ctx, *CHOICE_FUNCS), must=False)
+    # a table keyed by positions in list(Q) is decoded with the same enumeration of the set (another one differs per hash seed)
+    misc.check_index_agreement(ctx, rep, ctx.prog.func('dfa_algorithms.dfa_minimize'))
     rep.extra['effect_rounds'] = ctx.effects.rounds
     rep.extra['calls_resolved'] = sum(s.calls - s.unresolved for s in ctx.effects.summaries.values())
     rep.extra['calls_unresolved'] = sum(s.unresolved for s in ctx.effects.summaries.values())
@@ -752,12 +762,17 @@ def _with_hidden_state(pid, fn):
                 st.extend(g0.nested.values())
         sorts.check_sorts(ctx, rep, sfuncs)
         work.check_recursive_memo(ctx, rep, sfuncs)
+        work.check_abandoned(ctx, rep, sfuncs)
+        # reads of the partial transition maps (NFA / PDA / TM) are guarded in every function the operations reach
+        seen_c = {i.where for i in rep.instances if i.rule == 'R-EFFECT.c'}
+        effect.check_guarded_reads(ctx, rep, [g0 for g0 in sfuncs if not g0.name.endswith('_in_place') and g0.short not in seen_c and g0.module.base.endswith('_algorithms.py')])
         effect.check_scope_operands(ctx, rep, _roots_of(ctx, rep))
         effect.check_shared_entries(ctx, rep, sfuncs)
         fresh.check_epsilon_constants(ctx, rep, sfuncs)
         fresh.check_epsilon_forwarded(ctx, rep, sfuncs)
         fresh.check_word_symbols(ctx, rep, sfuncs)
-        sorts.check_grammar_symbol_sorts(ctx, rep, sfuncs)
+        # C19 speaks about operands, history and hash order, not about which rules an operation keeps: no equality instances there
+        sorts.check_grammar_symbol_sorts(ctx, rep, sfuncs, equalities=(pid != 'C19'))
         rep.clauses_decided.append('the declared sorts State / Symbol / Direction (NewTypes of the repository) are respected in memberships, comparisons, set algebra, mapping keys and arguments inside the operations of this property (R-SORT)')
         rep.clauses_decided.append('encodings that carry identity inside the operations of this property are injective: names of composite states, __eq__ of the value classes, look-up keys built from printed forms; the input word is consumed unmodified (R-INJ on the call-graph closure)')
     return wrapped
